@@ -386,14 +386,25 @@ func evalC03(c *Ctx, cs *Case) {
 				viol("WalkFromRoot", "fromroot.differs-from-markdown", "walk", map[string]any{"order": order})
 			}
 		}
-			// massive mode with a meaningless encode option: the walk must still see the full rows
+		// massive mode with a meaningless encode option: the walk must still see the full rows
 		if spellable && order == orders[0] {
+			// on a FRESH tree and with branch strings no earlier call used (stale branches of an
+			// earlier call would otherwise hide a grower that does nothing)
 			mrec := NewRowRec()
+			g2 := BuildRoot(root)
 			mo := Guard(func() error {
-				return gtree.WalkFromRoot(g, mrec.Callback, append(BranchOptions(3), gtree.WithMassive(context.Background()), gtree.WithEncodeJSON())...)
+				return gtree.WalkFromRoot(g2, mrec.Callback, append(BranchOptions(5), gtree.WithMassive(context.Background()), gtree.WithEncodeJSON())...)
 			})
 			c.Eval(gen.HashString(fkey+"\x00walkmassive"), nontrivial)
-			if mo.Panic != nil || mo.Err != nil || !RowsEqual(mrec.Rows, cur.rows) {
+			wantM := model.Rows(model.Forest{mroot}, BranchTuples[5])
+			gotM := append([]model.Row(nil), mrec.Rows...)
+			for i := range wantM {
+				wantM[i].Path = ""
+			}
+			for i := range gotM {
+				gotM[i].Path = ""
+			}
+			if mo.Panic != nil || mo.Err != nil || !RowsEqual(gotM, wantM) {
 				viol("WalkFromRoot[massive+stray json]", "fromroot.massive-differs", "walk", map[string]any{"err": errStr(mo.Err)})
 			}
 			mw := mon.NewRecWriter()
